@@ -8,6 +8,10 @@ require (
 	github.com/hknutzen/testtxt v0.0.0-20240408182449-0168fe18ebfb
 )
 
-require gopkg.in/yaml.v3 v3.0.1 // indirect
+require (
+	golang.org/x/sys v0.30.0 // indirect
+	golang.org/x/term v0.29.0 // indirect
+	gopkg.in/yaml.v3 v3.0.1 // indirect
+)
 
 replace github.com/hknutzen/Netspoc-Approve/go => /repo/go
